@@ -288,6 +288,7 @@ def _type_docs(root_open, close, q, pfx):
         V('ok-plain', 'xsi:type', doc('e', '', '<a>1</a>')),
         V('ok-xsi-extension', 'xsi:type', doc('e', 'xsi:type="%sD"' % q, '<a>1</a><b>2</b>'), pfx),
         I('xsi-extension-missing-child', 'xsi:type', doc('e', 'xsi:type="%sD"' % q, '<a>1</a>'), pfx),
+        I('xsi-extension-bad-child', 'xsi:type', doc('e', 'xsi:type="%sD"' % q, '<a>1</a><b>x</b>'), pfx),
         I('extension-content-without-xsi', 'xsi:type', doc('e', '', '<a>1</a><b>2</b>')),
         V('ok-xsi-restriction', 'xsi:type', doc('e', 'xsi:type="%sR"' % q, '<a>5</a>'), pfx),
         I('xsi-restriction-range', 'xsi:type', doc('e', 'xsi:type="%sR"' % q, '<a>300</a>'), pfx),
